@@ -108,13 +108,14 @@ def run(case):
             for what, f, n_used in (("relabel_tracks", lambda x, g: x.relabel_tracks(generator=g), lambda x: len(list(x.itertracks()))),
                                     ("rename_tracks", lambda x, g: x.rename_tracks(generator=g), lambda x: len(list(x.itertracks()))),
                                     ("rename_labels", lambda x, g: x.rename_labels(generator=g), lambda x: len(x.labels()))):
-                src = mk()
-                it = iter(pool)
-                need = n_used(src)
-                if need <= len(pool):
-                    f(src, it)
-                    left = list(it)
-                    assert left == pool[need:], f"{what} drew {len(pool) - len(left)} names from the caller's iterator for {need} tracks / labels"
+                for how in ("list iterator", "generator object"):
+                    src = mk()
+                    it = iter(pool) if how == "list iterator" else (x for x in pool)
+                    need = n_used(src)
+                    if need <= len(pool):
+                        f(src, it)
+                        left = list(it)       # the caller goes on drawing from its own iterator (not closed, not advanced further)
+                        assert left == pool[need:], f"{what} left {left!r} in the caller's {how} after taking {need} of {pool!r}"
         # every result that is promised to be a new annotation is independent of its source (checked last: it edits both)
         assert_independent(tb, r, a, "rename_labels(mapping)")
         for what, f in (("rename_labels(generator)", lambda x: x.rename_labels(generator=_gen(case["gen"]))),
